@@ -42,6 +42,68 @@ def cases(tier, seed):
     for i in range(n):
         yield {"seed": seed, "idx": i, "edits": edits, "delivery": "cross"}
         yield {"seed": seed, "idx": i, "edits": edits, "delivery": "cell" if i % 2 else "reload"}
+    for i in range(8):
+        yield {"kind": "limport", "seed": seed, "idx": i}
+
+
+# ---------------------------------------------------------------- helpers and variables reached through an import inside the body
+LIMPORT_A = """import twosigma.memento as m
+
+@m.memento_function
+def f(x):
+    %(imp)s
+    return [%(h)s(x), %(X)s]
+"""
+LIMPORT_B = "X = %(x)d\n\ndef h(x):\n    return x + %(k)d\n"
+LIMPORT_FORMS = [("from %(pkg)s.b import h, X", "h", "X"), ("import %(pkg)s.b as bb", "bb.h", "bb.X"),
+                 ("from . import b", "b.h", "b.X"), ("from .b import h as hh, X as XX", "hh", "XX")]
+LIMPORT_SIG = "value computed by an earlier edition is returned: helper / variable reached through an import statement inside the function body"
+
+
+def limport_child(arg):
+    from twosigma.memento.exception import UndeclaredDependencyError
+
+    sys.path.insert(0, arg["src"])
+    env.set_env(os.path.join(arg["src"], "env"), default_storage=env.fs_backend(arg["store"]))
+    a = importlib.import_module(arg["pkg"] + ".a")
+    try:
+        return ["ret", a.f(1)]
+    except UndeclaredDependencyError:
+        return ["undeclared"]
+
+
+def run_limport(case):
+    """f imports a plain helper and a variable of a module of its own package inside its body; the helper / the variable
+    is edited between two processes that share a store."""
+    out = {"viol": [], "nontrivial": [], "obs": collections.Counter(), "sets": {"features": set()}}
+    imp, h, X = LIMPORT_FORMS[case["idx"] % 4]
+    what = ["variable", "helper"][(case["idx"] // 4) % 2]
+    pkg = "vpl_%d_%d" % (case["seed"], case["idx"])
+    editions = [(1, 10), (2, 10) if what == "variable" else (1, 20)]
+    with env.Scratch() as sc:
+        got = []
+        for k, (x, kk) in enumerate(editions):
+            d = os.path.join(sc.path("src%d" % k), pkg)
+            os.makedirs(d)
+            open(os.path.join(d, "__init__.py"), "w").close()
+            with open(os.path.join(d, "a.py"), "w") as f:
+                f.write(LIMPORT_A % {"imp": imp % {"pkg": pkg}, "h": h, "X": X})
+            with open(os.path.join(d, "b.py"), "w") as f:
+                f.write(LIMPORT_B % {"x": x, "k": kk})
+            got.append(procs.in_child(limport_child, {"src": sc.path("src%d" % k), "pkg": pkg, "store": sc.path("store")}))
+            out["obs"]["calls_judged"] += 1
+            want = ["ret", [1 + kk, x]]
+            if got[-1] != ["undeclared"] and got[-1] != want:
+                stale = k and got[-1] == got[0]
+                out["viol"].append({"sig": LIMPORT_SIG if stale else "a call returns a value that no edition of the program computes",
+                                    "msg": "%s: f reaches b.h and b.X through %r; after the %s was edited f(1) returned %s, an un-memoized "
+                                           "execution of the current program gives %s" % (pkg, imp % {"pkg": pkg}, what, got[-1], want)})
+        out["sets"]["features"].add("function-local import")
+        out["obs"]["programs_with_an_import_inside_a_body"] += 1
+        out["nontrivial"].append("limport:%d" % case["idx"])
+    out["obs"] = dict(out["obs"])
+    out["sets"] = {k: sorted(v) for k, v in out["sets"].items()}
+    return out
 
 
 def build_history(case):
@@ -399,6 +461,8 @@ def mechanism(hist, k, name):
 
 
 def run_case(case):
+    if case.get("kind") == "limport":
+        return run_limport(case)
     out = {"viol": [], "nontrivial": [], "obs": collections.Counter(), "sets": {"features": set()}}
 
     def fail(sig, msg):
